@@ -36,18 +36,38 @@ ORACLES_FOR_KIND = {
     "rsp": ["repoSourcePath_panics", "path_escapes_root"],
     "slabel": ["source_label_roundtrip", "source_label_print_not_canonical", "record_path_collision"],
     "tip": ["record_path_collision"],
+    "dep": ["dependency_key_not_printed_label", "dependency_key_not_canonical", "dependency_names_unknown_key",
+            "record_key_not_printed_label"],
+    "find": ["spelling_not_found", "lookup_wrong_target"],
     "site": ["generated_path_escapes_root", "source_path_escapes_root", "escaping_path_accepted_generates",
              "escaping_path_accepted_sources", "source_dependency_label_unstable", "entry_crashes_generates",
              "entry_crashes_sources"],
 }
 # number of leading hex fields of a case line / an ORACLE line that are the case's inputs
-NINPUTS = {"parse": 1, "rel": 2, "clean": 1, "split": 1, "new": 4, "join": 2, "rsp": 2, "slabel": 2, "tip": 3, "site": 3}
+NINPUTS = {"parse": 1, "rel": 2, "clean": 1, "split": 1, "new": 4, "join": 2, "rsp": 2, "slabel": 2, "tip": 3, "site": 3,
+           "dep": 2, "find": 2}
 
 ORACLE_FIELDS = {
     "source_label_roundtrip": "package, source path given to sourceLabel, the printed label that does not re-parse to "
                               "the label it was printed from",
     "source_label_print_not_canonical": "package, source path given to sourceLabel, the printed label that an earlier, "
                                         "different label also printed",
+    "dependency_key_not_printed_label": "package of the BUILD.dawn file, dependency as the user spelled it in target(deps=[...]), "
+                                        "the string stored in the target's dependency list (what the runner asks for and "
+                                        "what the dependent's record is keyed by): it does not parse and print back to itself",
+    "dependency_key_not_canonical": "package, dependency as spelled, string stored for it, an earlier spelling of the SAME label "
+                                    "(or, when the last two fields are equal, a DIFFERENT label), the string stored for that",
+    "dependency_names_unknown_key": "package, dependency as spelled (it denotes a defined target), the string stored for it, "
+                                    "which is not the key of that target in the target table",
+    "spelling_not_found": "package, label as spelled (it denotes a defined target), the lookup that did not find it",
+    "lookup_wrong_target": "package, label as spelled, the lookup, the label of the target it returned",
+    "record_key_not_printed_label": "package, dependency as spelled in BUILD.dawn, the key(s) of the `dependencies` map in the "
+                                    "dependent's record on disk after a build (expected: exactly the printed label)",
+    "target_ran_under_two_identities": "project directory (scratch; BUILD.dawn files refer to //sub:gen, //sub/u:gen, //:b, "
+                                       "//sub/u/v:w under every re-spelling of their package), target, times evaluated in one build",
+    "module_loaded_under_two_identities": "project directory (scratch; BUILD.dawn files load //lib:defs.dawn under several "
+                                          "spellings), module, times loaded",
+    "accepted_spelling_rejected_e2e": "project directory (scratch), what failed, error",
     "source_dependency_label_unstable": "project root directory, package, sources= entry, the printed label (target-table "
                                         "key / dependency string) that does not re-parse and print back to itself",
     "entry_crashes_generates": "project root directory, package, generates= entry on which target()/Load panicked, "
@@ -65,6 +85,7 @@ ORACLE_FIELDS = {
 
 
 SITE_ROOTS = {}
+KEY_DEFS = []   # keys of the target table of the identity-key family (the `defs` line of its output)
 
 
 def unhx(s):
@@ -120,6 +141,13 @@ def to_case(f):
         if f[4] == f[6] and f[5] == f[7]:
             return "CSiteSame %s %s" % (head, res(f[4], f[5]))
         return "CSite %s %s %s" % (head, res(f[4], f[5]), res(f[6], f[7]))
+    if op == "dep":
+        return "CDep %s %s %s" % (cq_bytes(unhx(f[1])), cq_bytes(unhx(f[2])),
+                                  "None" if f[3] == "err" else "(Some %s)" % cq_bytes(unhx(f[4])))
+    if op == "find":
+        return "CFind key_defs %s %s %s %s" % (cq_bytes(unhx(f[1])), cq_bytes(unhx(f[2])),
+                                               "None" if f[3] == "err" else "(Some %s)" % cq_bytes(unhx(f[4])),
+                                               "None" if f[5] == "err" else "(Some %s)" % cq_bytes(unhx(f[6])))
     if op == "tip":
         return "CTip (mkLabel %s (@nil N) %s %s) %s" % (cq_bytes(unhx(f[1])), cq_bytes(unhx(f[2])),
                                                        cq_bytes(unhx(f[3])), cq_bytes(unhx(f[4])))
@@ -140,7 +168,7 @@ def eval_model(ctx, cases):
     for f in cases:
         if f[0] == "site":
             nroot[unhx(f[1])] = nroot.get(unhx(f[1]), 0) + 1
-    hdr = HDR
+    hdr = HDR + "Definition key_defs : list str := %s.\n" % cq_list([cq_bytes(unhx(x)) for x in KEY_DEFS], "str")
     for b, n in sorted(nroot.items()):
         if n > 20:
             SITE_ROOTS[b] = "sroot%d" % len(SITE_ROOTS)
@@ -180,7 +208,11 @@ def run(ctx):
     out3 = os.path.join(ctx.tmp, "c12_sites.tsv")
     site_depth, site_roots = (3, 2) if ctx.quick() else (4, 4)
     site_nrand, site_nload = (300, 50) if ctx.quick() else (4000, 300)
+    out4 = os.path.join(ctx.tmp, "c12_keys.tsv")
+    key_maxlen, key_nrand, key_nproj = (5, 1500, 2) if ctx.quick() else (7, 20000, 12)
     env2 = {"VERIF_OUT": out2, "VERIF_MAXLEN": str(6 if ctx.quick() else 8),
+            "VERIF_OUT_KEYS": out4, "VERIF_KEY_MAXLEN": str(key_maxlen), "VERIF_KEY_NRAND": str(key_nrand),
+            "VERIF_KEY_NPROJ": str(key_nproj),
             "VERIF_OUT_SITES": out3, "VERIF_SEED": str(ctx.seed), "VERIF_SITE_DEPTH": str(site_depth),
             "VERIF_SITE_ROOTS": str(site_roots), "VERIF_SITE_NRAND": str(site_nrand), "VERIF_SITE_NLOAD": str(site_nload)}
     # the call-site harness creates real projects and writes a record per target() call: keep that off the disk
@@ -189,8 +221,9 @@ def run(ctx):
         env2["TMPDIR"] = tempfile.mkdtemp(prefix="verif-c12-", dir=shm)
     try:
         rc, o = ctx.go_overlay_test("", {"zz_verif_c12_test.go": os.path.join(HARNESS, "overlay/root/zz_verif_c12_test.go"),
-                                         "zz_verif_c12_sites_test.go": os.path.join(HARNESS, "overlay/root/zz_verif_c12_sites_test.go")},
-                                    "^TestVerifC12(Paths|Sites)$", env2)
+                                         "zz_verif_c12_sites_test.go": os.path.join(HARNESS, "overlay/root/zz_verif_c12_sites_test.go"),
+                                         "zz_verif_c12_keys_test.go": os.path.join(HARNESS, "overlay/root/zz_verif_c12_keys_test.go")},
+                                    "^TestVerifC12(Paths|Sites|Keys)$", env2)
     finally:
         if "TMPDIR" in env2:
             shutil.rmtree(env2["TMPDIR"], ignore_errors=True)
@@ -221,9 +254,17 @@ def run(ctx):
     oracles = []
     dist = {}
     panics = []
-    for p in (out1, out2, out3):
+    del KEY_DEFS[:]
+    key_info = {}
+    for p in (out1, out2, out3, out4):
         for line in open(p):
             f = line.rstrip("\n").split("\t")
+            if f[0] == "defs":
+                KEY_DEFS.extend(f[1].split(","))
+                continue
+            if f[0] == "info":
+                key_info = dict(zip(f[1::2], f[2::2]))
+                continue
             if f[0] == "ORACLE":
                 oracles.append(f)
                 continue
